@@ -50,4 +50,16 @@ TEXTS = {
         "note": "Leaves are recognised by their fixed message prefixes and location path.",
         "technique": "property-based testing against a list model + differential (hash vs btree, entry vs element conversion)",
     },
+    "C13": {
+        "level": "Differential generated-input search: fragments from grammars of paths, identifiers, expressions, types, visibilities, where-clauses and malformed text converted by 27 syntax-valued targets in quoted, bare and invisible-group spelling (plus Callable, the parse_expr helpers, the literal kinds and vectors of them, numeric arrays, PathList and whole meta items) and compared token-for-token with syn parsing the same fragment directly.",
+        "ref": "DESIGN.md section 3 C13",
+        "note": "TypeGroup and proc_macro2::Literal (Lit::Verbatim) cannot be produced from source text and are only exercised on the rejection side.",
+        "technique": "differential property-based testing against syn's own parser",
+    },
+    "C15": {
+        "level": "Part a: lists valid by construction must parse, keep order and class, and round-trip through printing; single-token mutations must be rejected where invalidity is provable (4*10^4 lists + mutants quick). Part b: exhaustive over 128 hook-override patterns x 15 item forms x invisible group x 3 hook outcomes x 2 entry points (20 736 routes) - exactly one hook, the documented default error otherwise, spans per the contract.",
+        "ref": "DESIGN.md section 3 C15",
+        "note": "The 128 probe implementers are a generated, committed file (harness/vchecks/src/probes.rs).",
+        "technique": "grammar-based property testing with round-trip oracle + exhaustive enumeration of override patterns",
+    },
 }
